@@ -87,38 +87,62 @@ def baseline():
         return {}
 
 
+def _gen_worker(key):
+    """generate the obligations of one contract (own process: z3 terms do not cross process boundaries,
+    SMT-LIB text does)"""
+    c = REGISTRY[key]
+    t0 = time.time()
+    try:
+        obs, meta = verify_contract(c)
+    except EngineError as e:
+        return key, str(e), {}, [], 0.0
+    except Exception:
+        return key, 'engine crash: ' + traceback.format_exc(limit=8), {}, [], 0.0
+    bg = smt.background()
+    names = {}
+    out = []
+    for o in obs:
+        k = names.get(o.name, 0)
+        names[o.name] = k + 1
+        inst = '%s#%d' % (o.name, k)
+        if '/sentinel/' in o.name:
+            out.append((o.name, inst, smt.Query(inst, bg + o.hyps, o.goal).smt2, True))
+        elif z3.is_true(o.goal):
+            out.append((o.name, inst, None, False))
+        else:
+            out.append((o.name, inst, smt.Query(inst, bg + o.hyps, o.goal).smt2, False))
+    return key, None, meta, out, time.time() - t0
+
+
+class _Q:
+    def __init__(self, name, smt2):
+        self.name, self.smt2 = name, smt2
+        self.qf = 'forall' not in smt2 and 'exists' not in smt2
+
+
 def prove_contracts(keys, budget_s=10.0, procs=None):
     """verify the named contracts; returns per-contract results"""
+    import multiprocessing as mp
     load_contracts()
-    bg = None
     results = {}
     queries = []
     sentinels = []
-    for key in keys:
-        c = REGISTRY[key]
-        t0 = time.time()
-        try:
-            obs, meta = verify_contract(c)
-        except EngineError as e:
-            results[key] = {'error': str(e), 'obligations': [], 'meta': {}}
+    procs = procs or min(16, os.cpu_count() or 1)
+    if len(keys) > 1 and procs > 1:
+        with mp.get_context('fork').Pool(min(procs, len(keys))) as pool:
+            gen = pool.map(_gen_worker, keys, chunksize=1)
+    else:
+        gen = [_gen_worker(k) for k in keys]
+    for key, err, meta, obs, gen_s in gen:
+        if err:
+            results[key] = {'error': err, 'obligations': [], 'meta': {}}
             continue
-        except Exception:
-            results[key] = {'error': 'engine crash: ' + traceback.format_exc(limit=8), 'obligations': [], 'meta': {}}
-            continue
-        bg = smt.background()
-        names = {}
-        for o in obs:
-            k = names.get(o.name, 0)
-            names[o.name] = k + 1
-            inst = '%s#%d' % (o.name, k)
-            if '/sentinel/' in o.name:
-                sentinels.append((key, o.name, inst, smt.Query(inst, bg + o.hyps, o.goal)))
-                continue
-            if z3.is_true(o.goal):
-                queries.append((key, o.name, inst, None))
+        results[key] = {'error': None, 'meta': meta, 'gen_s': gen_s, 'obligations': []}
+        for name, inst, smt2, is_sentinel in obs:
+            if is_sentinel:
+                sentinels.append((key, name, inst, _Q(inst, smt2)))
             else:
-                queries.append((key, o.name, inst, smt.Query(inst, bg + o.hyps, o.goal)))
-        results[key] = {'error': None, 'meta': meta, 'gen_s': time.time() - t0, 'obligations': []}
+                queries.append((key, name, inst, _Q(inst, smt2) if smt2 is not None else None))
     todo = [q[3] for q in queries if q[3] is not None]
     solved = smt.discharge(todo, budget_s=budget_s, procs=procs) if todo else {}
     # vacuity: a sentinel `False` that is provable means contradictory requires / invariants / axioms
@@ -248,7 +272,7 @@ def main():
     if pat == '--baseline':
         write_baseline(sys.argv[2:] or None)
         sys.exit(0)
-    keys = [k for k in REGISTRY if pat in k and not REGISTRY[k].inline]
+    keys = [k for k in REGISTRY if pat in k and not REGISTRY[k].inline and REGISTRY[k].kind != 'assumed']
     t0 = time.time()
     res = prove_contracts(keys, budget_s=float(os.environ.get('BUDGET', '10')))
     for key in keys:
